@@ -93,14 +93,17 @@ def generate(seed, tier):
             # dynamic constraint referenced through a list element of the container
             idx = orng.randrange(cont["fields"][1]["sz"])
             ops.append({"op": "rw", "p": tpi,
-                        "inline": [progs.EXPR(dyn_term(orng, dnames, ["ol", idx], orng.choice([0, 1])))],
+                        "inline": [progs.EXPR(dyn_term(orng, dnames, ["ol", idx], orng.choice([0, 1])))
+                                   for _ in range(orng.choice([1, 1, 2]))],
                         "dyn": True, "elem": True})
             continue
         p = orng.choice(k_parties)
         if r < 0.55:
-            inl = [progs.EXPR(dyn_term(orng, dnames, [], orng.choice([0, 1, 1])))]
+            inl = [progs.EXPR(dyn_term(orng, dnames, [], orng.choice([0, 1, 1])))
+                   for _ in range(orng.choice([1, 1, 2, 3]))]
             if orng.random() < 0.4:
                 inl = progs.strip(go.stmts(fields, 1, lo=1, hi=1)) + inl
+            orng.shuffle(inl)
             ops.append({"op": "rw", "p": p, "inline": inl, "dyn": True})
         elif r < 0.75:
             ops.append({"op": "rw", "p": p, "inline": progs.strip(go.stmts(fields, 1, lo=1, hi=2))})
